@@ -100,8 +100,10 @@ class Machine(object):
             return self.gen_classic(rng)
         return self.gen_hash(rng)
 
-    def _dd(self, rng, cap=None, block=None):
+    def _dd(self, rng, cap=None, block=None, partial_ok=False):
         n = pick_size(rng, big=0.01, cap=cap)
+        if block and partial_ok and rng.random() < 0.35:
+            return [rng.randrange(1 << 30), n]          # CFB: a piece may end inside a segment
         if block:
             n = (n // block) * block if rng.random() < 0.9 else block * rng.randrange(0, 4)
         return [rng.randrange(1 << 30), n]
@@ -185,7 +187,7 @@ class Machine(object):
             name = direction if r < 0.75 else ("decrypt" if direction == "encrypt" else "encrypt")
             if fam == "OPENPGP":
                 name = direction
-            ops.append([name, self._dd(rng, cap=300, block=block)])
+            ops.append([name, self._dd(rng, cap=300, block=block, partial_ok=(fam == "CFB"))])
             if rng.random() < 0.04 and fam != "OPENPGP":
                 ops.append(["badarg", self._dd(rng, cap=64, block=block), rng.randrange(4), direction])
         return {"group": "classic", "config": cfg, "ops": ops}
